@@ -16,6 +16,8 @@ import envshim
 envshim.install()
 from litex.soc.integration import soc as S                      # noqa: E402
 from litex.soc.interconnect import wishbone as WB               # noqa: E402
+from litex.soc.interconnect import axi as AXI                   # noqa: E402
+from litex.soc.integration.soc_core import SoCCore              # noqa: E402
 from litex.build import generic_platform as GP                  # noqa: E402
 from migen import Signal                                        # noqa: E402
 from litex.gen.sim.core import Evaluator                        # noqa: E402
@@ -56,12 +58,14 @@ def time_limit(seconds):
     except ValueError:          # not in the main thread: run unprotected
         yield
         return
-    signal.setitimer(signal.ITIMER_PROF, seconds)
+    outer = signal.setitimer(signal.ITIMER_PROF, seconds)      # remaining time of an enclosing limit, if any
     try:
         yield
     finally:
         signal.setitimer(signal.ITIMER_PROF, 0)
         signal.signal(signal.SIGPROF, old)
+        if outer[0] > 0:
+            signal.setitimer(signal.ITIMER_PROF, outer[0])
 
 
 OP_TIME_LIMIT = 8.0     # CPU seconds per operation (legitimate operations need < 0.5 s)
@@ -108,11 +112,23 @@ def onone(x):
 _IFACES = {}
 
 
-def iface(dw, adr_width, key):
-    k = (dw, adr_width, key)
+def iface(dw, adr_width, key, std="wishbone"):
+    k = (dw, adr_width, key, std)
     if k not in _IFACES:
-        _IFACES[k] = WB.Interface(data_width=dw, adr_width=adr_width)
+        if std == "wishbone":
+            _IFACES[k] = WB.Interface(data_width=dw, adr_width=adr_width)
+        else:       # AXI-Lite: byte addressed, same class/width as the bus -> add_adapter returns it unchanged
+            _IFACES[k] = AXI.AXILiteInterface(data_width=dw, address_width=adr_width + (dw // 8).bit_length() - 1)
     return _IFACES[k]
+
+
+_PLATFORM = []
+
+
+def soc_platform():
+    if not _PLATFORM:
+        _PLATFORM.append(GP.GenericPlatform("dev", [("clk", 0, GP.Pins("A1"))], name="c13"))
+    return _PLATFORM[0]
 
 
 _ASIG = {}
@@ -133,30 +149,65 @@ class _StubInterconnect:
         self.p2p = master is not None
 
 
+_STUBBED = [(WB, "InterconnectShared"), (WB, "Crossbar"), (WB, "InterconnectPointToPoint"),
+            (AXI, "AXILiteInterconnectShared"), (AXI, "AXILiteCrossbar"), (AXI, "AXILiteInterconnectPointToPoint"),
+            (AXI, "AXIInterconnectShared"), (AXI, "AXICrossbar"), (AXI, "AXIInterconnectPointToPoint")]
+
+
 @contextlib.contextmanager
 def stub_interconnects():
-    saved = (WB.InterconnectShared, WB.Crossbar, WB.InterconnectPointToPoint)
-    WB.InterconnectShared = WB.Crossbar = WB.InterconnectPointToPoint = _StubInterconnect
+    saved = [getattr(m, a) for m, a in _STUBBED]
+    for m, a in _STUBBED:
+        setattr(m, a, _StubInterconnect)
     try:
         yield
     finally:
-        WB.InterconnectShared, WB.Crossbar, WB.InterconnectPointToPoint = saved
+        for (m, a), v in zip(_STUBBED, saved):
+            setattr(m, a, v)
 
 
 # ------------------------------------------------------------------------------------------------------------
 # bus handler
+DEFAULT_CFG = {"ic": "shared", "std": "wishbone", "soc": 0, "reserved": []}
+RESERVED_INT_SIZE = 0x1000000       # `SoCRegion(origin=region, size=0x1000000)` for an integer reserved region
+
+
 class BusRun:
     """One real SoCBusHandler driven by a history.  `aw` may be a toy width: the constructor only accepts 32/64,
     every later use reads `self.address_width`, which is overridden after construction."""
 
-    def __init__(self, aw, dw, interconnect="shared"):
+    def __init__(self, aw, dw, cfg=None):
+        cfg = dict(DEFAULT_CFG, **(cfg or {}))
+        self.cfg = cfg
         self.aw, self.dw = aw, dw
         self.wb = dw // 8
         self.sh = self.wb.bit_length() - 1
-        self.bus = S.SoCBusHandler(data_width=dw, address_width=aw if aw in (32, 64) else 32,
-                                   interconnect=interconnect)
-        self.bus.address_width = aw
+        self.std = cfg["std"]
+        self.soc = None
         self.verdicts = []
+        aw_ctor = aw if aw in (32, 64) else 32
+        # reserved_regions of the constructor: {name: origin (int -> 16 MiB region) | SoCRegion}
+        reserved = {}
+        for n, o, sz in cfg["reserved"]:
+            reserved[nm(n)] = o if sz is None else S.SoCRegion(origin=o, size=sz)
+        try:
+            with time_limit(OP_TIME_LIMIT):
+                if cfg["soc"]:
+                    # through the SoC constructor, the way designs get their handlers
+                    self.soc = S.SoC(soc_platform(), 1e6, bus_standard=self.std, bus_data_width=dw,
+                                     bus_address_width=aw_ctor, bus_interconnect=cfg["ic"],
+                                     bus_reserved_regions=reserved)
+                    self.bus = self.soc.bus
+                else:
+                    self.bus = S.SoCBusHandler(standard=self.std, data_width=dw, address_width=aw_ctor,
+                                               interconnect=cfg["ic"], reserved_regions=reserved)
+            self.verdicts += ["ok"] * len(reserved)
+        except Exception as e:
+            envshim.quiet_stderr()
+            self.verdicts.append("ctor-rej" if isinstance(e, SoCError) else "crash:" + type(e).__name__)
+            self.soc = None
+            self.bus = S.SoCBusHandler(standard=self.std, data_width=dw, address_width=aw_ctor, interconnect=cfg["ic"])
+        self.bus.address_width = aw
         self.fin = None
         self.decoders = None     # [(slave name, callable)] handed to the interconnect by do_finalize
         self.p2p = False
@@ -184,18 +235,28 @@ class BusRun:
             with time_limit(OP_TIME_LIMIT):
                 k = op[0]
                 idx = len(self.verdicts)        # a distinct interface object for every call of the history
+                adr_w = max(self.aw - self.sh, 1)
                 if k == "R":
                     _, n, io, o, sz, c, l, d = op
-                    bus.add_region(nm(n), self._region(io, o, sz, c, l, d))
+                    if self.soc is not None and not io and d:
+                        # SoC-level helper (SoCCore.add_memory_region builds the SoCRegion from a type string)
+                        SoCCore.add_memory_region(self.soc, nm(n), o, sz,
+                                                  type=("cached" if c else "io") + ("+linker" if l else ""))
+                    else:
+                        bus.add_region(nm(n), self._region(io, o, sz, c, l, d))
                 elif k == "S":
                     n = op[1]
                     reg = None
                     if len(op) > 2:
                         _, n, o, sz, c, l, d = op
                         reg = self._region(False, o, sz, c, l, d)
-                    bus.add_slave(nm(n), iface(self.dw, max(self.aw - self.sh, 1), ("s", idx)), reg)
+                    if (self.soc is not None and reg is not None and n is not None and o is not None and c and not l
+                            and d and 2 * self.wb <= sz <= 0x4000 and sz % self.wb == 0 and o % self.wb == 0):
+                        self.soc.add_ram(nm(n), o, sz)       # SoC.add_ram: SRAM + add_slave(name, ram.bus, region)
+                    else:
+                        bus.add_slave(nm(n), iface(self.dw, adr_w, ("s", idx), self.std), reg)
                 elif k == "M":
-                    bus.add_master(nm(op[1]), iface(self.dw, max(self.aw - self.sh, 1), ("m", idx)))
+                    bus.add_master(nm(op[1]), iface(self.dw, adr_w, ("m", idx), self.std))
                 elif k == "C":
                     bus.io_regions_check = bool(op[1])
                 else:
@@ -219,7 +280,7 @@ class BusRun:
             if real_hw:
                 bus.do_finalize()
             else:
-                with stub_interconnects():
+                with stub_interconnects(), time_limit(OP_TIME_LIMIT):
                     bus.do_finalize()
             self.fin = "ok"
             ic = bus._interconnect
@@ -253,8 +314,10 @@ class BusRun:
         return " # ".join([" ".join(self.verdicts), self.fin or "-", self.state_str()])
 
 
-def bus_line(aw, dw, ops):
+def bus_line(aw, dw, ops, cfg=None):
     parts = ["bus %d %d" % (aw, dw)]
+    for n, o, sz in (cfg or {}).get("reserved", []):
+        parts.append("R %d 0 %d %d 1 0 1" % (n, o, RESERVED_INT_SIZE if sz is None else sz))
     for op in ops:
         if op[0] == "R":
             _, n, io, o, sz, c, l, d = op
@@ -430,15 +493,40 @@ def size_pool(aw):
     return S0
 
 
-def gen_bus_history(rng, nops=None, cfg=None):
+def gen_bus_cfg(rng, aw, hw=False):
+    """Less-used constructor options and the SoC-level glue: crossbar, AXI-Lite bus, handlers created by the SoC
+    constructor (regions through add_memory_region / add_ram), reserved_regions of the constructor."""
+    cfg = dict(DEFAULT_CFG)
+    cfg["ic"] = "crossbar" if rng.random() < 0.3 else "shared"
+    if hw:
+        return cfg
+    cfg["std"] = "axi-lite" if rng.random() < 0.2 else "wishbone"
+    cfg["soc"] = int(rng.random() < 0.25)
+    if rng.random() < 0.15:
+        if aw >= 32 and rng.random() < 0.6:
+            base = rng.choice([0x10000000, 0x40000000, 0x0, 0x82000000])
+            res = [[8, base, None]]
+            if rng.random() < 0.5:
+                res.append([9, base + 4 * RESERVED_INT_SIZE, rng.choice([None, 0x1800, 0x1000])])
+        else:
+            top = 2 ** aw
+            sz = rng.choice([0x10, 0x18, 0x100]) if aw < 32 else rng.choice([0x1000, 0x1800])
+            res = [[8, top // 4, sz]]
+            if rng.random() < 0.5:
+                res.append([9, top // 4 + 4 * win(sz), sz])
+        cfg["reserved"] = res
+    return cfg
+
+
+def gen_bus_history(rng, nops=None, cfg=None, hw=False):
     """Generate a history adaptively against the real handler; returns (aw, dw, ops, BusRun after the history).
     Oracles are NOT evaluated here (see run_bus_history)."""
     if cfg is None:
         aw = rng.choice([32, 32, 32, 64, 12, 12, 16])
-        dw = rng.choice([32, 32, 32, 64, 64, 128])
+        dw = rng.choice([32, 32, 32, 64, 64, 128, 128, 256, 512])
     else:
         aw, dw = cfg
-    run = BusRun(aw, dw)
+    run = BusRun(aw, dw, gen_bus_cfg(rng, aw, hw))
     nops = nops or rng.randint(1, 12)
     sizes = size_pool(aw)
     top = 2 ** aw
@@ -512,7 +600,10 @@ def gen_bus_history(rng, nops=None, cfg=None):
                 o -= o % win(sz)      # aligned on the decoded size half of the time
             o = max(o, 0)
             probe = S.SoCRegion(origin=o, size=sz)
-            in_io = run.bus.check_region_is_io(probe) if all(r.origin is not None for r in run.bus.io_regions.values()) else False
+            try:
+                in_io = run.bus.check_region_is_io(probe)
+            except Exception:
+                in_io = False
             cached = (not in_io) if rng.random() < 0.85 else rng.random() < 0.5
             return o, sz, cached, rng.random() < 0.08, rng.random() > 0.04
 
@@ -584,12 +675,36 @@ def op_request(op):
     return None
 
 
-def run_bus_history(aw, dw, ops, known=(), rng=None, with_oracles=True):
+def registered_oracle(bus, name, io, o, sz, c, l, d):
+    """The region registered under `name` is the one that was requested (nothing re-sized, moved or re-flagged
+    on the way through the helpers)."""
+    r = (bus.io_regions if io else bus.regions).get(name)
+    if r is None:
+        return "accepted region %s is not registered" % name
+    if o is not None and r.origin != o:
+        return "region %s requested at 0x%x is registered at %r" % (name, o, r.origin)
+    if r.size != sz or bool(r.cached) != bool(c) or bool(r.linker) != bool(l) or bool(r.decode) != bool(d):
+        return "region %s registered as size 0x%x cached=%s linker=%s decode=%s, requested 0x%x %s %s %s" % (
+            name, r.size, r.cached, r.linker, r.decode, sz, bool(c), bool(l), bool(d))
+    if isinstance(r, S.SoCIORegion) != bool(io):
+        return "region %s registered with the wrong kind" % name
+    return None
+
+
+def run_bus_history(aw, dw, ops, known=(), rng=None, with_oracles=True, cfg=None):
     """Replay `ops` on a fresh real handler with all oracles armed.
     Returns dict(result=<canonical text>, alarm=<oracle message or None>, dec=[(line, real bits)], nontrivial=int)."""
-    run = BusRun(aw, dw)
+    run = BusRun(aw, dw, cfg)
     alarm = None
     nontrivial = 0
+    if any(v != "ok" for v in run.verdicts):
+        alarm = "constructor with reserved_regions %r: %s" % (run.cfg["reserved"], run.verdicts[-1])
+    elif with_oracles:
+        msg = regions_oracle(run.bus)
+        for n, o, sz in run.cfg["reserved"]:
+            msg = msg or registered_oracle(run.bus, nm(n), 0, o, RESERVED_INT_SIZE if sz is None else sz, 1, 0, 1)
+        if msg:
+            alarm = "after the constructor: " + msg
     for k, op in enumerate(ops):
         rq = op_request(op)
         bus = run.bus
@@ -616,6 +731,9 @@ def run_bus_history(aw, dw, ops, known=(), rng=None, with_oracles=True):
                 msg = clients_oracle(bus, op, masters0, slaves0)
             if msg is None and rq is not None and not rq[1] and rq[2] is None:
                 msg = alloc_oracle(bus, aw, name, rq[3], rq[4], known)
+            if msg is None and rq is not None and rq[2] is not None:
+                full = op[2:] if op[0] == "R" else (0,) + tuple(op[2:])
+                msg = registered_oracle(bus, name, *full)
             if msg:
                 alarm = "after op %d %r: %s" % (k, list(op), msg)
     fin = run.finalize(real_hw=False)
@@ -642,11 +760,11 @@ def run_bus_history(aw, dw, ops, known=(), rng=None, with_oracles=True):
             "p2p": run.p2p, "verdicts": list(run.verdicts)}
 
 
-def hw_decoder_check(aw, dw, ops, known=()):
+def hw_decoder_check(aw, dw, ops, known=(), cfg=None):
     """End-to-end on the real interconnect hardware (toy widths): build it with the real do_finalize, drive the
     master address over every word and read each slave's `cyc`.  Returns (alarm | None, {slave: bits})."""
     from netlist import Netlist
-    run = BusRun(aw, dw)
+    run = BusRun(aw, dw, cfg)
     for op in ops:
         run.apply(tuple(op))
     fin = run.finalize(real_hw=True)
@@ -738,27 +856,58 @@ def decoder_case_oracle(aw, dw, o, sz, decode, addrs, bits, known=()):
 
 # ------------------------------------------------------------------------------------------------------------
 # location handlers (CSR pages, IRQ numbers)
+def expected_n_locs(kind, params):
+    """Number of locations from the CONSTRUCTOR ARGUMENTS (never from the handler): pages of `paging` bytes in a
+    CSR space of 2^address_width words of alignment/8 bytes; the number of interrupt lines."""
+    if kind == "csr":
+        dwid, awid, al, pg = params
+        return (al // 8) * (2 ** awid) // pg
+    return params[0]
+
+
 class LocRun:
-    def __init__(self, kind, params):
+    def __init__(self, kind, params, reserved=(), via_soc=False):
         self.kind, self.params = kind, tuple(params)
+        self.reserved = [tuple(r) for r in reserved]
+        self.via_soc = bool(via_soc)
         self.h = None
+        self.soc = None
+        self.crash = None
         self.verdicts = []
+        rdict = {"l%d" % n: k for n, k in self.reserved}
         try:
-            if kind == "csr":
-                dwid, awid, al, pg = params
-                self.h = S.SoCCSRHandler(data_width=dwid, address_width=awid, alignment=al, paging=pg)
-            else:
-                self.h = S.SoCIRQHandler(n_irqs=params[0])
+            with time_limit(OP_TIME_LIMIT):
+                if kind == "csr":
+                    dwid, awid, al, pg = params
+                    if self.via_soc and al == 32:
+                        self.soc = S.SoC(soc_platform(), 1e6, csr_data_width=dwid, csr_address_width=awid,
+                                         csr_paging=pg, csr_reserved_csrs=rdict)
+                        self.h = self.soc.csr
+                    else:
+                        self.h = S.SoCCSRHandler(data_width=dwid, address_width=awid, alignment=al, paging=pg,
+                                                 reserved_csrs=rdict)
+                else:
+                    if self.via_soc:
+                        self.soc = S.SoC(soc_platform(), 1e6, irq_n_irqs=params[0], irq_reserved_irqs=rdict)
+                        self.h = self.soc.irq
+                    else:
+                        self.h = S.SoCIRQHandler(n_irqs=params[0], reserved_irqs=rdict)
         except SoCError:
             envshim.quiet_stderr()
             self.h = None
+        except Exception as e:
+            envshim.quiet_stderr()
+            self.h = None
+            self.crash = "constructor raised " + type(e).__name__
 
     def apply(self, op):
         h = self.h
         snap = (dict(h.locs), getattr(h, "enabled", True))
         try:
             with time_limit(OP_TIME_LIMIT):
-                if op[0] == "A":
+                if op[0] == "A" and self.soc is not None and self.kind == "csr":
+                    SoCCore.add_csr(self.soc, "l%d" % op[1], op[2], use_loc_if_exists=bool(op[3]))   # SoC-level helper
+                elif op[0] == "A":
                     h.add("l%d" % op[1], op[2], use_loc_if_exists=bool(op[3]))
                 elif op[0] == "P":
                     h.address_map("l%d" % op[1], None)
@@ -778,13 +927,14 @@ class LocRun:
 
     def result_str(self):
         if self.h is None:
-            return "ctor-rej"
+            return "ctor-rej" if self.crash is None else "crash"
         return " # ".join([str(self.h.n_locs), " ".join(self.verdicts),
                            " ".join("%s:%d" % (n[1:], k) for n, k in self.h.locs.items())])
 
 
-def loc_line(kind, params, ops):
-    parts = ["loc %s %s" % (kind, " ".join(map(str, params)))]
+def loc_line(kind, params, ops, reserved=()):
+    parts = ["loc %s %s" % (kind, " ".join(map(str, params))) +
+             "".join(" %d:%d" % (n, k) for n, k in reserved)]
     for op in ops:
         if op[0] == "A":
             parts.append("A %d %s %s" % (op[1], onone(op[2]), b(op[3])))
@@ -792,17 +942,20 @@ def loc_line(kind, params, ops):
             parts.append("P %d" % op[1])
         else:
             parts.append("E")
-    return " ; ".join(parts)
+    return " ; ".join(parts) + (" ;" if not ops else "")
 
 
-def loc_oracle(h):
-    """Names and numbers unique, every number an int in [0, n_locs)."""
+def loc_oracle(h, n_locs):
+    """Names and numbers unique, every number an int in [0, n_locs) — `n_locs` computed from the constructor
+    arguments, and the handler must agree with it."""
+    if h.n_locs != n_locs:
+        return "handler offers %r locations, the constructor arguments give %d" % (h.n_locs, n_locs)
     vals = list(h.locs.values())
     for n, k in h.locs.items():
         if not isinstance(k, int) or isinstance(k, bool):
             return "location of %s is %r" % (n, k)
-        if not (0 <= k < h.n_locs):
-            return "%s got location %d outside [0, %d)" % (n, k, h.n_locs)
+        if not (0 <= k < n_locs):
+            return "%s got location %d outside [0, %d)" % (n, k, n_locs)
     if len(set(vals)) != len(vals):
         return "a location number was granted twice: %r" % (h.locs,)
     return None
@@ -811,16 +964,21 @@ def loc_oracle(h):
 def gen_loc_history(rng):
     if rng.random() < 0.5:
         kind = "irq"
-        params = (rng.choice([32, 32, 8, 4, 1, 0, 33, 16]),)
+        params = (rng.choice([32, 32, 8, 4, 1, 0, 33, 16, 31, 2, 3]),)
     else:
         kind = "csr"
-        params = (rng.choice([32, 32, 8, 16]), rng.choice([14, 14, 15, 16, 18, 13]), rng.choice([32, 32, 32, 64]),
-                  rng.choice([0x400, 0x800, 0x800, 0x1000, 0x4000, 0x8000]))
-    run = LocRun(kind, params)
+        params = (rng.choice([32, 32, 8, 16]), rng.choice([14, 14, 15, 16, 17, 18, 13]), rng.choice([32, 32, 32, 32, 64]),
+                  rng.choice([0x400, 0x800, 0x800, 0x1000, 0x2000, 0x4000, 0x8000]))
+    nl = expected_n_locs(kind, params)          # from the arguments, not from the handler
+    reserved = []
+    if rng.random() < 0.2:
+        for j in range(rng.randint(1, 2)):
+            reserved.append((50 + j, rng.choice([0, 1, nl - 1, nl, 3, 3, -1, nl // 2])))
+    via_soc = rng.random() < 0.3
+    run = LocRun(kind, params, reserved, via_soc)
     ops = []
     if run.h is None:
-        return kind, params, ops
-    nl = run.h.n_locs
+        return kind, params, ops, reserved, via_soc
     nops = rng.randint(1, 12)
     for t in range(nops):
         u = rng.random()
@@ -842,14 +1000,18 @@ def gen_loc_history(rng):
     if nl <= 32 and rng.random() < 0.3:
         for k in range(nl + 2):
             ops.append(("A", 100 + k, None, 0))
-    return kind, params, ops
+    return kind, params, ops, reserved, via_soc
 
 
-def run_loc_history(kind, params, ops):
-    run = LocRun(kind, params)
-    alarm = None
+def run_loc_history(kind, params, ops, reserved=(), via_soc=False):
+    run = LocRun(kind, params, reserved, via_soc)
+    alarm = run.crash
     nontrivial = 0
+    n_locs = expected_n_locs(kind, params)
     if run.h is not None:
+        alarm = loc_oracle(run.h, n_locs)
+        if alarm:
+            alarm = "after the constructor (reserved %r): %s" % (list(reserved), alarm)
         for k, op in enumerate(ops):
             before = dict(run.h.locs)
             v = run.apply(tuple(op))
@@ -857,9 +1019,12 @@ def run_loc_history(kind, params, ops):
             if v.startswith("crash") and alarm is None:
                 alarm = "op %d %r raised %s" % (k, op, v)
             if alarm is None:
-                msg = loc_oracle(run.h)
+                msg = loc_oracle(run.h, n_locs)
                 if msg is None and any(run.h.locs.get(n) != x for n, x in before.items()):
                     msg = "a granted location was changed or withdrawn: %r -> %r" % (before, run.h.locs)
+                if msg is None and v == "ok" and op[0] == "A" and op[2] is not None and not (
+                        op[3] and "l%d" % op[1] in before) and run.h.locs.get("l%d" % op[1]) != op[2]:
+                    msg = "l%d asked for location %r and holds %r" % (op[1], op[2], run.h.locs.get("l%d" % op[1]))
                 if msg:
                     alarm = "after op %d %r: %s" % (k, list(op), msg)
     return {"result": run.result_str(), "alarm": alarm, "nontrivial": nontrivial}
@@ -870,13 +1035,33 @@ def run_loc_history(kind, params, ops):
 RES_NAMES = {1: "led", 2: "btn", 3: "uart", 4: "clk"}
 
 
+CONNECTORS = [("j1", "C0 C1 C2 C3 C4 C5 C6 C7")]
+
+
+def pins_of(uid, sb=None):
+    """Pin identifiers of an entry (a function of its uid only): 1-3 pins, some through connector j1.
+    Returns (identifiers as written in the table, identifiers after connector resolution)."""
+    n = 1 + (uid % 3) if sb is None else 1 + ((uid + sb) % 2)
+    raw, res = [], []
+    for j in range(n):
+        if (uid + j + (sb or 0)) % 4 == 0:
+            idx = (uid * 3 + j) % 8
+            raw.append("j1:%d" % idx)
+            res.append("C%d" % idx)
+        else:
+            pin = "P%d_%d" % (uid, j) if sb is None else "P%d_%d_%d" % (uid, sb, j)
+            raw.append(pin)
+            res.append(pin)
+    return raw, res
+
+
 def make_entry(e):
     """e = (uid, name, num, subs) -> the IO table tuple of the real code."""
     uid, name, num, subs = e
     if subs:
-        els = [GP.Subsignal("s%d" % sb, GP.Pins("P%d_%d" % (uid, sb))) for sb in subs] + [GP.IOStandard("LVCMOS33")]
+        els = [GP.Subsignal("s%d" % sb, GP.Pins(" ".join(pins_of(uid, sb)[0]))) for sb in subs] + [GP.IOStandard("LVCMOS33")]
     else:
-        els = [GP.Pins("P%d" % uid), GP.IOStandard("LVCMOS33")]
+        els = [GP.Pins(" ".join(pins_of(uid)[0])), GP.IOStandard("LVCMOS33")]
     return (RES_NAMES[name], num) + tuple(els)
 
 
@@ -886,12 +1071,17 @@ def entry_str(e):
 
 
 class CmRun:
-    def __init__(self, table):
+    def __init__(self, table, via_platform=False):
         self.entries = {}           # id(tuple) -> uid
         self.meta = {}              # uid -> (name, num, subs)
         self.keep = []
         io = [self._mk(e) for e in table]
-        self.cm = GP.ConstraintManager(io, [])
+        if via_platform:
+            # the way designs reach the manager: GenericPlatform.request / request_all / lookup_request / ...
+            self.api = GP.GenericPlatform("dev", io, CONNECTORS, name="c13")
+            self.cm = self.api.constraint_manager
+        else:
+            self.cm = self.api = GP.ConstraintManager(io, CONNECTORS)
         self.outs = []
         self.granted_objs = []      # every object ever returned by request*, for the freshness oracle
         self.alarm = None
@@ -949,7 +1139,7 @@ class CmRun:
         try:
             k = op[0]
             if k == "Q":
-                obj = cm.request(RES_NAMES[op[1]], op[2], loose=bool(op[3]))
+                obj = self.api.request(RES_NAMES[op[1]], op[2], loose=bool(op[3]))
                 if obj is None:
                     out = "none"
                 else:
@@ -958,7 +1148,7 @@ class CmRun:
                     self._check_answer([uid], op[1], [op[2]], "request")
                     out = "g:%d" % uid
             elif k in ("QA", "QR"):
-                (cm.request_all if k == "QA" else cm.request_remaining)(RES_NAMES[op[1]])
+                (self.api.request_all if k == "QA" else self.api.request_remaining)(RES_NAMES[op[1]])
                 new = cm.matched[before:]
                 self._note_grant([o for _, o in new])
                 uids = [self.entries[id(res)] for res, _ in new]
@@ -966,8 +1156,8 @@ class CmRun:
                                    "request_all" if k == "QA" else "request_remaining")
                 out = "g:" + ",".join(map(str, uids))
             elif k == "L":
-                nm = RES_NAMES[op[1]] + (":s%d" % op[3] if op[3] is not None else "")
-                obj = cm.lookup_request(nm, op[2], loose=bool(op[4]))
+                lname = RES_NAMES[op[1]] + (":s%d" % op[3] if op[3] is not None else "")
+                obj = self.api.lookup_request(lname, op[2], loose=bool(op[4]))
                 if obj is None:
                     out = "none"
                 else:
@@ -978,7 +1168,7 @@ class CmRun:
                         self._check_answer([uid], op[1], [op[2]], "lookup_request")
                     out = "f:%s:%s" % (uid, onone(sub))
             elif k == "X":
-                cm.add_extension([self._mk(e) for e in op[2]], prepend=bool(op[1]))
+                self.api.add_extension([self._mk(e) for e in op[2]], prepend=bool(op[1]))
                 out = "none"
             else:
                 raise ValueError(op)
@@ -1044,10 +1234,28 @@ def cm_oracle(run, all_entries):
         return "a signal constraint was emitted twice: %s" % keys
     if {u for u, _ in keys} != set(ma):
         return "constraints %s do not cover exactly the granted entries %s" % (keys, ma)
+    want_keys = []
+    for u in ma:
+        subs = run.meta[u][2]
+        want_keys += [(u, sb) for sb in subs] if subs else [(u, None)]
+    if keys != want_keys:
+        return "constraints emitted for %s, granted signals are %s" % (keys, want_keys)
     for u, sb, pins in cons:
-        want = ("P%d" % u,) if sb is None else ("P%d_%d" % (u, sb),)
+        want = tuple(pins_of(u, sb)[1])
         if pins != want:
-            return "constraint of entry %s sub %s carries pins %s" % (u, sb, pins)
+            return "constraint of entry %s sub %s carries pins %s, its table entry says %s" % (u, sb, pins, want)
+    # width of every granted signal = number of pins of its own entry (from the table, not from the object)
+    for res, obj in cm.matched:
+        u = run.entries[id(res)]
+        subs = run.meta[u][2]
+        if not subs:
+            if not isinstance(obj, Signal) or len(obj) != len(pins_of(u)[0]):
+                return "entry %s has %d pins, the granted object is %r" % (u, len(pins_of(u)[0]), obj)
+        else:
+            for sb in subs:
+                sig = getattr(obj, "s%d" % sb, None)
+                if sig is None or len(sig) != len(pins_of(u, sb)[0]):
+                    return "entry %s subsignal s%d has %d pins, granted %r" % (u, sb, len(pins_of(u, sb)[0]), sig)
     return None
 
 
@@ -1086,8 +1294,11 @@ def gen_cm_history(rng):
     return table, ops
 
 
-def run_cm_history(table, ops):
-    run = CmRun(table)
+def run_cm_history(table, ops, via_platform=False):
+    try:
+        run = CmRun(table, via_platform)
+    except Exception as e:
+        return {"result": "crash", "alarm": "constructing the manager raised " + type(e).__name__, "nontrivial": 0}
     all_entries = [e[0] for e in table]
     alarm = None
     nontrivial = 0
@@ -1122,24 +1333,46 @@ def work_chunk(args):
     for _ in range(count):
         if sum(1 for r in out if r["alarm"]) >= 5:
             break           # enough failing inputs from this chunk (each may have cost a time-out)
+        try:
+            with time_limit(HISTORY_TIME_LIMIT):
+                _one_history(kind, rng, known, out)
+        except Exception as e:      # an exception/hang outside the guarded operations: still a reported case
+            envshim.quiet_stderr()
+            out.append({"kind": kind, "line": "noop", "real": "harness-exception", "nontrivial": 0, "nops": 0,
+                        "alarm": "%s history raised %s: %s" % (kind, type(e).__name__, str(e)[:200]),
+                        "input": {"kind": kind, "unreproducible": True}})
+    sys.stdout.flush()
+    return out
+
+
+HISTORY_TIME_LIMIT = 60.0
+
+
+def _one_history(kind, rng, known, out):
+    if True:
         if kind == "bus":
             aw, dw, ops, _run = gen_bus_history(rng)
-            res = run_bus_history(aw, dw, ops, known, rng=rng)
-            out.append({"kind": "bus", "line": bus_line(aw, dw, ops), "real": res["result"], "alarm": res["alarm"],
-                        "input": {"kind": "bus", "aw": aw, "dw": dw, "ops": [list(o) for o in ops]},
+            cfg = _run.cfg
+            res = run_bus_history(aw, dw, ops, known, rng=rng, cfg=cfg)
+            out.append({"kind": "bus", "line": bus_line(aw, dw, ops, cfg), "real": res["result"], "alarm": res["alarm"],
+                        "input": {"kind": "bus", "aw": aw, "dw": dw, "cfg": cfg, "ops": [list(o) for o in ops]},
                         "nontrivial": res["nontrivial"], "dec": res["dec"], "fin": res["fin"], "p2p": res["p2p"],
                         "nops": len(ops)})
         elif kind == "loc":
-            k, params, ops = gen_loc_history(rng)
-            res = run_loc_history(k, params, ops)
-            out.append({"kind": "loc", "line": loc_line(k, params, ops), "real": res["result"], "alarm": res["alarm"],
-                        "input": {"kind": "loc", "handler": k, "params": list(params), "ops": [list(o) for o in ops]},
+            k, params, ops, reserved, via_soc = gen_loc_history(rng)
+            res = run_loc_history(k, params, ops, reserved, via_soc)
+            out.append({"kind": "loc", "line": loc_line(k, params, ops, reserved), "real": res["result"],
+                        "alarm": res["alarm"],
+                        "input": {"kind": "loc", "handler": k, "params": list(params), "reserved": [list(r) for r in reserved],
+                                  "via_soc": int(via_soc), "ops": [list(o) for o in ops]},
                         "nontrivial": res["nontrivial"], "nops": len(ops)})
         elif kind == "cm":
             table, ops = gen_cm_history(rng)
-            res = run_cm_history(table, ops)
+            plat = int(rng.random() < 0.5)
+            res = run_cm_history(table, ops, plat)
             out.append({"kind": "cm", "line": cm_line(table, ops), "real": res["result"], "alarm": res["alarm"],
-                        "input": {"kind": "cm", "table": [list(e) for e in table], "ops": [list(o) for o in ops]},
+                        "input": {"kind": "cm", "plat": plat, "table": [list(e) for e in table],
+                                  "ops": [list(o) for o in ops]},
                         "nontrivial": res["nontrivial"], "nops": len(ops)})
         elif kind == "dec":
             line, (aw, dw, o, sz, decode, addrs) = gen_decoder_case(rng)
@@ -1149,8 +1382,6 @@ def work_chunk(args):
                         "input": {"kind": "dec", "aw": aw, "dw": dw, "origin": o, "size": sz, "decode": int(decode),
                                   "addrs": addrs if len(addrs) < 64 else "all"},
                         "nontrivial": int(bits != "u" and "1" in bits), "nops": len(addrs)})
-    sys.stdout.flush()
-    return out
 
 
 def rerun_input(inp, known=()):
@@ -1158,17 +1389,18 @@ def rerun_input(inp, known=()):
     k = inp["kind"]
     if k == "bus":
         ops = [tuple(o) for o in inp["ops"]]
-        res = run_bus_history(inp["aw"], inp["dw"], ops, known)
-        return bus_line(inp["aw"], inp["dw"], ops), res["result"], res["alarm"], res
+        res = run_bus_history(inp["aw"], inp["dw"], ops, known, cfg=inp.get("cfg"))
+        return bus_line(inp["aw"], inp["dw"], ops, inp.get("cfg")), res["result"], res["alarm"], res
     if k == "loc":
         ops = [tuple(o) for o in inp["ops"]]
-        res = run_loc_history(inp["handler"], inp["params"], ops)
-        return loc_line(inp["handler"], inp["params"], ops), res["result"], res["alarm"], res
+        reserved = [tuple(r) for r in inp.get("reserved", [])]
+        res = run_loc_history(inp["handler"], inp["params"], ops, reserved, inp.get("via_soc", 0))
+        return loc_line(inp["handler"], inp["params"], ops, reserved), res["result"], res["alarm"], res
     if k == "cm":
         table = [(e[0], e[1], e[2], tuple(e[3])) for e in inp["table"]]
         ops = [("X", o[1], tuple((e[0], e[1], e[2], tuple(e[3])) for e in o[2])) if o[0] == "X" else tuple(o)
                for o in inp["ops"]]
-        res = run_cm_history(table, ops)
+        res = run_cm_history(table, ops, inp.get("plat", 0))
         return cm_line(table, ops), res["result"], res["alarm"], res
     if k == "dec":
         aw, dw, o, sz, d = inp["aw"], inp["dw"], inp["origin"], inp["size"], inp["decode"]
